@@ -126,6 +126,12 @@ func runC11(c *Ctx) {
 		endPkt = &x
 	case "unframeable":
 		x := CPkt{Kind: KUnknown, Type: 0x0A, Bytes: codec.PacketRaw(0x0A, uint32(c.T.Choose(8)), c.T.Bytes(4, 9))}
+		if c.T.Bool(1, 3) {
+			// ... or a header that announces more than any packet may have (above 128 KiB), with a
+			// few bytes behind it; the client stays connected and sends nothing more
+			big := []uint32{131073, 200000, 1 << 20, 0x7fffffff, 0xffffffff}[c.T.Choose(5)]
+			x = CPkt{Kind: KUnframeable, Type: 0x0A, Bytes: codec.PacketRaw([]uint16{0x0A, uint16(codec.PktData), uint16(codec.PktKeepalive)}[c.T.Choose(3)], big, c.T.Bytes(c.T.Choose(40), 9))}
+		}
 		endPkt = &x
 	}
 	p.Pkts = pk
